@@ -3,9 +3,9 @@
 use serde::{Deserialize, Serialize};
 use serde_json::{json, Value};
 
-use crate::cases::{choose, drive, run_on, Schedule, HARD_ACTION_CAP};
+use crate::cases::{choose, drive, run_on, run_on_ref, Schedule, HARD_ACTION_CAP};
 use crate::driver::{CaseReport, Check};
-use crate::explore::{in_task_poll_burn, Act, Consumer, Ev, GRef, Ret, Runner, Stepper, INTR};
+use crate::explore::{in_task_poll_burn, Act, Consumer, Ev, External, GRef, Ret, Runner, Stepper, INTR};
 use crate::gen::{decode_cfg, decode_spec, size_class, Profile, RunCfg, Shape, CALL_SHAPES};
 use crate::model::{build_graph, GraphFacts, GraphSpec};
 use crate::oracle::{check_run, Violation};
@@ -30,6 +30,11 @@ pub enum Earlier {
     Run {
         cfg: RunCfg,
         acts: Vec<Act>,
+        /// A streaming run whose `FnRef`s still held when the stream has ended
+        /// (or was dropped) stay alive: later runs drop them at generated points
+        /// (`Act::External`).
+        #[serde(default)]
+        keep: bool,
     },
     /// A sequential walk over the graph (`iter`, `fold`, `try_for_each` with an error ...).
     Sequential(u8),
@@ -104,6 +109,43 @@ fn sequential_walk(g: &mut fn_graph::FnGraph<crate::model::TestFn>, which: u8) {
     }
 }
 
+/// `FnRef`s of earlier runs that are still alive.  Their graph borrow is erased;
+/// they are always dropped before the graph is borrowed mutably or goes away.
+pub struct Leftovers(Vec<External>);
+
+impl Leftovers {
+    fn keep(&mut self, f: fn_graph::FnRef<'_, crate::model::TestFn>) {
+        // SAFETY: see the type's contract; `drop_all` runs before every `&mut`
+        // use of the graph and before the graph is dropped.
+        let f: fn_graph::FnRef<'static, crate::model::TestFn> = unsafe { std::mem::transmute(f) };
+        self.0.push(Box::new(move || drop(f)));
+    }
+    fn drop_all(&mut self) {
+        for e in self.0.drain(..) {
+            let _ = std::panic::catch_unwind(std::panic::AssertUnwindSafe(e));
+        }
+    }
+}
+
+impl Drop for Leftovers {
+    fn drop(&mut self) {
+        self.drop_all();
+    }
+}
+
+fn gref<'g>(
+    g: &'g mut fn_graph::FnGraph<crate::model::TestFn>,
+    cfg: &RunCfg,
+    left: &mut Leftovers,
+) -> GRef<'g> {
+    if cfg.api.shape.is_mut() {
+        left.drop_all();
+        GRef::Mut(g)
+    } else {
+        GRef::Shared(&*g)
+    }
+}
+
 /// Execute a run with tape-driven schedule, optionally aborting after `abort` actions.
 fn run_with_abort(
     g: &mut fn_graph::FnGraph<crate::model::TestFn>,
@@ -111,10 +153,15 @@ fn run_with_abort(
     t: &mut Tape,
     max_actions: usize,
     abort: Option<usize>,
+    keep: bool,
+    left: &mut Leftovers,
 ) -> (Vec<Act>, Ret, Vec<Ev>) {
-    fn go(s: &mut dyn Stepper, t: &mut Tape, max_actions: usize, abort: Option<usize>) {
+    fn go(s: &mut dyn Stepper, t: &mut Tape, max_actions: usize, abort: Option<usize>, keep: bool) {
         let mut k = 0usize;
         while !s.done() && !s.stuck() && k < HARD_ACTION_CAP {
+            if keep && !s.source_live() {
+                break;
+            }
             if abort == Some(k) {
                 s.apply(Act::Abort);
                 // a consumer may still hold FnRefs: drop them afterwards
@@ -136,27 +183,48 @@ fn run_with_abort(
     }
     if cfg.api.shape.is_stream() {
         let mut c = Consumer::new(&*g, cfg);
-        go(&mut c, t, max_actions, abort);
+        c.set_externals(std::mem::take(&mut left.0));
+        go(&mut c, t, max_actions, abort, keep);
+        left.0 = c.take_externals();
+        if keep {
+            for f in c.take_held() {
+                left.keep(f);
+            }
+        }
         let ret = c.ret().cloned().unwrap_or(Ret::Deadlock);
         (c.acts().to_vec(), ret, c.trace())
     } else {
-        let mut r = Runner::new(GRef::Mut(g), cfg);
-        go(&mut r, t, max_actions, abort);
+        let mut r = Runner::new(gref(g, cfg, left), cfg);
+        r.set_externals(std::mem::take(&mut left.0));
+        go(&mut r, t, max_actions, abort, false);
+        left.0 = r.take_externals();
         let ret = r.ret().cloned().unwrap_or(Ret::Deadlock);
         (r.acts().to_vec(), ret, r.trace())
     }
 }
 
-fn replay_earlier(g: &mut fn_graph::FnGraph<crate::model::TestFn>, e: &Earlier) {
+fn replay_earlier(g: &mut fn_graph::FnGraph<crate::model::TestFn>, e: &Earlier, left: &mut Leftovers) {
     match e {
-        Earlier::Sequential(w) => sequential_walk(g, *w),
-        Earlier::Run { cfg, acts } => {
+        Earlier::Sequential(w) => {
+            left.drop_all();
+            sequential_walk(g, *w)
+        }
+        Earlier::Run { cfg, acts, keep } => {
             if cfg.api.shape.is_stream() {
                 let mut c = Consumer::new(&*g, cfg);
+                c.set_externals(std::mem::take(&mut left.0));
                 drive(&mut c, Schedule::Strict(acts), false);
+                left.0 = c.take_externals();
+                if *keep {
+                    for f in c.take_held() {
+                        left.keep(f);
+                    }
+                }
             } else {
-                let mut r = Runner::new(GRef::Mut(g), cfg);
+                let mut r = Runner::new(gref(g, cfg, left), cfg);
+                r.set_externals(std::mem::take(&mut left.0));
                 drive(&mut r, Schedule::Strict(acts), false);
+                left.0 = r.take_externals();
             }
         }
     }
@@ -173,11 +241,16 @@ pub struct HistoryEval {
 /// the last run on it and on a freshly built graph, compare.
 pub fn eval_history(case: &HistoryCase) -> HistoryEval {
     let mut g = build_graph(&case.spec);
+    let mut left = Leftovers(Vec::new());
     let facts = GraphFacts::new(&case.spec, &g);
     for e in &case.earlier {
-        replay_earlier(&mut g, e);
+        replay_earlier(&mut g, e, &mut left);
     }
-    let r1 = run_on(&mut g, facts.clone(), &case.last_cfg, Schedule::Replay(&case.last_acts));
+    let r1 = {
+        let gr = gref(&mut g, &case.last_cfg, &mut left);
+        run_on_ref(gr, facts.clone(), &case.last_cfg, Schedule::Replay(&case.last_acts), &mut left.0)
+    };
+    left.drop_all();
     let mut g2 = build_graph(&case.spec);
     let r2 = run_on(&mut g2, facts, &case.last_cfg, Schedule::Strict(&r1.acts));
     let mut out = vec![];
@@ -221,6 +294,7 @@ impl Check for HistoryCheck {
         let mut ct = Tape::new(&tapes[1]);
         let mut st = Tape::new(&tapes[2]);
         let mut g = build_graph(&spec);
+        let mut left = Leftovers(Vec::new());
         let facts = GraphFacts::new(&spec, &g);
         let n_earlier = 1 + ct.below(3);
         let mut earlier = vec![];
@@ -229,6 +303,7 @@ impl Check for HistoryCheck {
         for _ in 0..n_earlier {
             if ct.chance(1, 6) {
                 let w = ct.below(5) as u8;
+                left.drop_all();
                 sequential_walk(&mut g, w);
                 if w % 5 == 2 || w % 5 == 4 {
                     abnormal = true;
@@ -238,7 +313,9 @@ impl Check for HistoryCheck {
             }
             let cfg = decode_cfg(&mut ct, &self.profile, n, INTR);
             let abort = if ct.chance(2, 5) { Some(ct.below(8)) } else { None };
-            let (acts, ret, _trace) = run_with_abort(&mut g, &cfg, &mut st, self.max_actions / 2, abort);
+            let keep = cfg.api.shape.is_stream() && ct.chance(1, 3);
+            let (acts, ret, _trace) =
+                run_with_abort(&mut g, &cfg, &mut st, self.max_actions / 2, abort, keep, &mut left);
             execs += 1;
             if !matches!(ret, Ret::Out(ref o) if o.state == "Finished")
                 && !matches!(ret, Ret::Cont(_) | Ret::StreamEnd)
@@ -248,10 +325,14 @@ impl Check for HistoryCheck {
             if acts.contains(&Act::Abort) {
                 abnormal = true;
             }
-            earlier.push(Earlier::Run { cfg, acts });
+            earlier.push(Earlier::Run { cfg, acts, keep });
         }
         let last_cfg = decode_cfg(&mut ct, &self.profile, n, INTR);
-        let r1 = run_on(&mut g, facts.clone(), &last_cfg, Schedule::Tape(&mut st, self.max_actions, None));
+        let r1 = {
+            let gr = gref(&mut g, &last_cfg, &mut left);
+            run_on_ref(gr, facts.clone(), &last_cfg, Schedule::Tape(&mut st, self.max_actions, None), &mut left.0)
+        };
+        left.drop_all();
         let mut g2 = build_graph(&spec);
         let r2 = run_on(&mut g2, facts, &last_cfg, Schedule::Strict(&r1.acts));
         execs += 2;
@@ -282,10 +363,13 @@ impl Check for HistoryCheck {
         if abnormal {
             labels.push("history:abnormal_earlier_run".into());
         }
+        if r1.acts.iter().any(|a| matches!(a, Act::External(_))) {
+            labels.push("history:earlier_fnref_dropped_during_last_run".into());
+        }
         for e in &case.earlier {
             match e {
                 Earlier::Sequential(_) => labels.push("history:has_sequential_walk".into()),
-                Earlier::Run { cfg, acts } => {
+                Earlier::Run { cfg, acts, .. } => {
                     if acts.contains(&Act::Abort) {
                         labels.push(format!(
                             "history:aborted_{}",
@@ -364,6 +448,8 @@ impl MultiCheck {
     pub fn new(thorough: bool) -> Self {
         let mut profile = Profile::base(if thorough { 24 } else { 14 }).with_apis(&shared_shapes(), 6, 1);
         profile.pct_wide = 1;
+        profile.pct_medium = 30;
+        profile.fan_den = 3;
         profile.permille_huge = 0;
         MultiCheck {
             profile,
@@ -379,6 +465,36 @@ fn make_stepper<'g>(g: &'g fn_graph::FnGraph<crate::model::TestFn>, cfg: &RunCfg
     } else {
         Box::new(Runner::new(GRef::Shared(g), cfg))
     }
+}
+
+/// Apply `a` to run `i`.  `Act::PollNesting(j, nth)`: run `j` (created, not done)
+/// is polled once inside that poll of run `i`, when `i` registers its waker for
+/// the nth time.
+fn apply_to<'g>(steppers: &mut [Option<Box<dyn Stepper + 'g>>], i: usize, a: Act) -> bool {
+    if let Act::PollNesting(j, _) = a {
+        if j != i && j < steppers.len() {
+            if let Some(sj) = steppers[j].as_mut() {
+                let pj: *mut (dyn Stepper + 'g) = &mut **sj;
+                let hook: Box<dyn FnOnce() + 'g> = Box::new(move || {
+                    // SAFETY: i != j, so this is another object than the stepper being
+                    // polled; the hook runs synchronously inside that poll, while the
+                    // caller (which owns the slice) does nothing else.
+                    let sj = unsafe { &mut *pj };
+                    if !sj.done() {
+                        sj.apply(Act::Poll);
+                    }
+                });
+                // SAFETY: the hook is removed again before this function returns.
+                let hook: Box<dyn FnOnce()> = unsafe { std::mem::transmute(hook) };
+                let si = steppers[i].as_mut().unwrap();
+                si.set_nested_hook(Some(hook));
+                let ok = si.apply(a);
+                si.set_nested_hook(None);
+                return ok;
+            }
+        }
+    }
+    steppers[i].as_mut().unwrap().apply(a)
 }
 
 fn final_ret(s: &dyn Stepper) -> Ret {
@@ -463,11 +579,10 @@ pub fn eval_multi(case: &MultiCase, lenient: bool) -> (MultiEval, Vec<(usize, Ac
                     steppers[i] = Some(st);
                     started_order.push(i);
                 }
-                let s = steppers[i].as_mut().unwrap();
-                if s.done() {
+                if steppers[i].as_ref().unwrap().done() {
                     continue;
                 }
-                if s.apply(a) {
+                if apply_to(&mut steppers, i, a) {
                     applied.push((i, a));
                 } else if !lenient {
                     // strict replays only come from recorded schedules; an inapplicable
@@ -638,9 +753,16 @@ impl Check for MultiCheck {
         let n = spec.n();
         let mut ct = Tape::new(&tapes[1]);
         let k = 2 + if ct.chance(1, 4) { 1 } else { 0 };
-        let cfgs: Vec<RunCfg> = (0..k).map(|_| decode_cfg(&mut ct, &self.profile, n, INTR)).collect();
+        let mut cfgs: Vec<RunCfg> = (0..k).map(|_| decode_cfg(&mut ct, &self.profile, n, INTR)).collect();
+        // twins: the same call made twice (two workers doing the same thing)
+        if ct.chance(1, 2) {
+            cfgs[1] = cfgs[0].clone();
+        }
         let one_task = ct.chance(1, 3);
         let coop = one_task && ct.chance(1, 2);
+        // lockstep: whatever is done to one run is done to the others right away
+        // (as far as applicable), so the runs reach the same internal state together
+        let lockstep = !one_task && ct.chance(1, 3);
         // generate the interleaving from the schedule tape by simulating
         let mut st = Tape::new(&tapes[2]);
         let schedule = {
@@ -700,7 +822,17 @@ impl Check for MultiCheck {
                             finished = true;
                             break;
                         }
-                        let a = choose(&mut st, s.wants_poll(), &opts);
+                        let mut a = choose(&mut st, s.wants_poll(), &opts);
+                        if a == Act::Poll && !one_task && st.chance(1, if lockstep { 3 } else { 5 }) {
+                            // separate tasks may be polled on different threads at the
+                            // same time: another live run is polled inside this poll
+                            let others: Vec<usize> = (0..k)
+                                .filter(|j| *j != i && steppers[*j].as_ref().is_some_and(|s| !s.done()))
+                                .collect();
+                            if !others.is_empty() {
+                                a = Act::PollNesting(others[st.below(others.len())], 1 + st.below(3));
+                            }
+                        }
                         if a == Act::Poll && one_task {
                             // one task: a poll of the task polls every run it contains
                             for j in 0..k {
@@ -710,8 +842,23 @@ impl Check for MultiCheck {
                                     }
                                 }
                             }
-                        } else if s.apply(a) {
+                        } else if apply_to(&mut steppers, i, a) {
                             sched.push((i, a));
+                            if lockstep && !matches!(a, Act::PollNesting(..) | Act::Abort) {
+                                for j in 0..k {
+                                    if j == i {
+                                        continue;
+                                    }
+                                    if steppers[j].is_none() {
+                                        let mut stp = make_stepper(&g, &cfgs[j]);
+                                        stp.set_deferred(coop);
+                                        steppers[j] = Some(stp);
+                                    }
+                                    if !steppers[j].as_ref().unwrap().done() && apply_to(&mut steppers, j, a) {
+                                        sched.push((j, a));
+                                    }
+                                }
+                            }
                         }
                         steps += 1;
                     }
@@ -759,6 +906,15 @@ impl Check for MultiCheck {
         ];
         if ev.overlapping {
             labels.push("overlapping".into());
+        }
+        if lockstep {
+            labels.push("schedule:lockstep".into());
+        }
+        if case.cfgs[0] == case.cfgs[1] {
+            labels.push("runs:twins".into());
+        }
+        if case.schedule.iter().any(|(_, a)| matches!(a, Act::PollNesting(..))) {
+            labels.push("schedule:poll_of_another_run_inside_a_poll".into());
         }
         for c in &case.cfgs {
             labels.push(format!("api:{}", c.api.name()));
